@@ -763,9 +763,17 @@ func (st *State) specEnv(what string) *SpecEnv {
 			env.pkg = sp.Pkg
 		}
 	}
+	// In pre/postconditions a parameter name means its entry value; inside the
+	// body (invariants, hooks, iteration clauses) it means the current value of
+	// the parameter variable, and old(p) the entry value.
+	env.entryParams = map[string]Val{}
+	bodyCtx := what == "invariant" || what == "hook" || what == "decreases" || strings.HasPrefix(what, "iteration") || what == "allocbound"
 	for i, p := range fr.fn.Params {
 		if i < len(fr.params) {
-			env.vars[p.Name()] = fr.params[i]
+			env.entryParams[p.Name()] = fr.params[i]
+			if !bodyCtx {
+				env.vars[p.Name()] = fr.params[i]
+			}
 		}
 	}
 	for i, fv := range fr.fn.FreeVars {
@@ -910,11 +918,35 @@ func (e *Engine) enterLoop(st *State, li *loopInfo, from *ssa.BasicBlock, k cont
 	e.execFrom(st, li.header, 0, from, k)
 }
 
+// ghostInLoop: a ghost variable is havocked at a loop head only if a hook
+// inside the loop body assigns it.
 func (c *Ctx) ghostInLoop(li *loopInfo, g string) bool {
 	if strings.HasPrefix(g, "$") {
 		return false
 	}
-	return true
+	ct := c.contract
+	if ct == nil {
+		return false
+	}
+	for b := range li.body {
+		for _, in := range b.Instrs {
+			ci, ok := in.(ssa.CallInstruction)
+			if !ok {
+				continue
+			}
+			name := c.oblName(in, "call")
+			ord := name[strings.LastIndex(name, "#")+1:]
+			callee := calleeName(ci.Common())
+			for _, key := range []string{callee + "#" + ord, callee} {
+				for _, h := range ct.Hooks[key] {
+					if h.Kind == "ghost" && h.Var == g {
+						return true
+					}
+				}
+			}
+		}
+	}
+	return false
 }
 
 func (st *State) freshValLike(old Val, prefix string) Val {
